@@ -526,3 +526,35 @@ func tracesTo(c *Ctx, v, target ssa.Value, d int) bool {
 // readOnlySliceFunc: library functions of packages sort and slices that only
 // read the slice they are given.
 var readOnlySliceFunc = map[string]bool{"slices.Contains": true, "slices.ContainsFunc": true, "slices.Index": true, "slices.IndexFunc": true, "slices.Equal": true, "slices.EqualFunc": true, "slices.Max": true, "slices.Min": true, "slices.MaxFunc": true, "slices.MinFunc": true, "slices.Clone": true, "slices.Values": true, "slices.All": true, "slices.BinarySearch": true, "slices.BinarySearchFunc": true, "slices.IsSorted": true, "slices.IsSortedFunc": true, "sort.SearchStrings": true, "sort.SearchInts": true, "sort.Search": true, "sort.StringsAreSorted": true, "sort.IntsAreSorted": true, "sort.IsSorted": true, "sort.SliceIsSorted": true}
+
+// listRoutine is a function of package cli that the search command hands its
+// result list to (a printing helper): call is the site in the command, arg the
+// list passed, param the parameter that receives it.
+type listRoutine struct {
+	fn    *ssa.Function
+	param *ssa.Parameter
+	call  *ssa.Call
+	arg   ssa.Value
+}
+
+// outputRoutines finds the helpers of package cli called from run with a
+// []SearchResult argument.
+func outputRoutines(c *Ctx, run *ssa.Function) []listRoutine {
+	var out []listRoutine
+	ssau.ForEachInstr(run, false, func(in ssa.Instruction) {
+		call, ok := in.(*ssa.Call)
+		if !ok {
+			return
+		}
+		h := call.Common().StaticCallee()
+		if h == nil || len(h.Blocks) == 0 || h.Pkg == nil || !strings.HasSuffix(h.Pkg.Pkg.Path(), "internal/cli") {
+			return
+		}
+		for i, a := range call.Common().Args {
+			if srSlice(a.Type()) && i < len(h.Params) {
+				out = append(out, listRoutine{h, h.Params[i], call, a})
+			}
+		}
+	})
+	return out
+}
